@@ -214,16 +214,18 @@ Definition py_set_eq (a b : list gentry) : bool := forallb (fun x => py_in x b) 
 Fixpoint py_set (l : list gentry) : list gentry :=                                                           (* set(l), as a list *)
   match l with [] => [] | x :: r => if py_in x r then py_set r else x :: py_set r end.
 Definition py_range (n : nat) : list gentry := map (fun i => GInt (Z.of_nat i)) (seq 0 n).                  (* range(n) *)
+(* list(g) for a group g (list, tuple, integer array): a fresh list of its entries — on the model's groups, the same entries *)
+Definition py_listify (g : list gentry) : list gentry := map (fun i => i) g.
 Definition check_groups_golden (groups : list (list gentry)) (n_features_in : nat) : option (list (list gentry)) :=
   let all_indices := List.concat groups in
   if existsb (fun i => py_is_bool i || negb (py_is_int i)) all_indices then None else
   if Nat.ltb 0 (List.length all_indices) && (Z.ltb (py_min all_indices) 0 || Z.geb (py_max all_indices) (Z.of_nat n_features_in)) then None else
   if Nat.eqb (List.length all_indices) n_features_in then
     (if negb (py_set_eq all_indices (py_range n_features_in)) then None else
-     Some groups)
+     Some (map py_listify groups))
   else
     (if negb (Nat.eqb (List.length (py_set all_indices)) (List.length all_indices)) then None else
-     let new_groups := groups ++ map (fun i => [i]) (filter (fun i => negb (py_in i all_indices)) (py_range n_features_in)) in
+     let new_groups := map py_listify groups ++ map (fun i => [i]) (filter (fun i => negb (py_in i all_indices)) (py_range n_features_in)) in
      Some new_groups).
 
 (* ------------------------------------------------------------------------------------------------ cross-parameter rules *)
